@@ -23,9 +23,9 @@ ASSUMPTIONS = ["list cells are the concrete blank nodes rdflib itself creates; n
                "where the list raises ValueError (index() of an absent item) any exception is accepted; where it raises "
                "IndexError the Collection must raise IndexError"]
 
-MUT = ["append", "iadd1", "iadd2", "set", "del", "clear"]
+MUT = ["append", "iadd0", "iadd1", "iadd2", "iaddself", "set", "del", "clear"]
 READ = ["get", "index", "in"]
-NARGS = {"append": 1, "iadd1": 1, "iadd2": 2, "set": 2, "del": 1, "clear": 0, "get": 1, "index": 1, "in": 1}
+NARGS = {"append": 1, "iadd0": 0, "iadd1": 1, "iadd2": 2, "iaddself": 0, "set": 2, "del": 1, "clear": 0, "get": 1, "index": 1, "in": 1}
 ISIDX = {"set": [0], "del": [0], "get": [0]}
 
 
@@ -136,6 +136,13 @@ def body_list(desc, F, *args):
             m1, m2 = F.lit(xs[0]), F.lit(xs[1])
             got = _do(lambda: c.__iadd__([m1, m2]))
             exp = _do(lambda: model.extend([m1, m2]))
+        elif kind == "iadd0":
+            got = _do(lambda: c.__iadd__([]))
+            exp = _do(lambda: model.extend([]))
+        elif kind == "iaddself":
+            g.budget = 400
+            got = _do(lambda: c.__iadd__(c))
+            exp = _do(lambda: model.extend(list(model)))
         elif kind == "set":
             i, m = xs[0], F.lit(xs[1])
             if desc.get("skip_set_at_len") and i == len(model):
@@ -250,6 +257,8 @@ def _mk(n0, ops):
             maxlen += 1
         elif kind == "iadd2":
             maxlen += 2
+        elif kind == "iaddself":
+            maxlen *= 2
     return sig, pre
 
 
@@ -290,11 +299,11 @@ def obligations(tier, seed):
 
 
 def bounds(tier):
-    return {"list": "start length 0-%d, every sequence of <=2 operations whose first is a mutation (6 mutations, 3 reads), "
+    return {"list": "start length 0-%d, every sequence of <=2 operations whose first is a mutation (8 mutations incl. += [], += [x], += [x, y], c += c; 3 reads), "
                     "seeded sample of 3-operation sequences; members and indices symbolic; after every mutation: exception "
                     "class vs. list, well-formed chain, len and iteration" % (2 if tier == "quick" else 3),
             "broken": "cyclic (symbolic back edge) and truncated chains of 1-3 cells; reads must finish within 200 Graph.triples calls",
-            "outside": "negative indices, slices, '+= []' with an empty iterable, lists longer than 5"}
+            "outside": "negative indices, slices, lists longer than 6"}
 
 
 def finding_key(ob, cex, reason):
